@@ -55,6 +55,7 @@ func newTranslator(p *packages.Package) *translator {
 			t.funcs[name] = fd
 		}
 	}
+	t.registerVarFuncs() // tracetargets.go: func literals in the composite literal of a package variable, as "var.field"
 	return t
 }
 
